@@ -22,28 +22,28 @@ Proof. intros []; cbn; lia. Qed.
 Lemma WfCtrls_depth cts cs : Forall2 WfCtrl cts cs -> (fold_right (fun t acc => Nat.max (tdepth t) acc) 0%nat cts <= 1)%nat.
 Proof. induction 1 as [|t c cts cs H _ IH]; cbn [fold_right]; [lia|]. apply WfCtrl_depth in H. lia. Qed.
 
-Theorem c03_from_the_wire_fixed m app_id code r ib env bs rest : (2 <= m)%nat ->
+Theorem c03_from_the_wire_fixed m app_id code r ib env bs rest : (2 <= m)%nat -> id_ok ib = true ->
   wf_res code r -> env = C Universal 16 [P Universal 2 ib; spec_response app_id code r] -> BerEnc env bs ->
   decode_inner' (repaired_d m) (bs ++ rest) = DFrame (as_i32 (parse_uint ib)) (spec_response app_id code r) [] rest /\
   result_of_tree (spec_response app_id code r) = Ok r.
 Proof.
-  intros Hm Hw -> He. split; [|now apply c03_result_of_spec].
+  intros Hm Hid Hw -> He. split; [|now apply c03_result_of_spec].
   assert (Hop : op_ok (spec_response app_id code r)) by reflexivity.
   apply (c06_exact_consumption_fixed m (as_i32 (parse_uint ib), spec_response app_id code r, []) bs rest).
-  eexists. split; [exact (WM_plain ib _ Hop)|]. split; [exact He|].
+  eexists. split; [exact (WM_plain ib _ Hop Hid)|]. split; [exact He|].
   pose proof (tdepth_spec_response app_id code r). cbn [tdepth fold_right]. lia.
 Qed.
 
-Theorem c03_from_the_wire_with_controls_fixed m app_id code r ib cts cs env bs rest : (2 <= m)%nat ->
+Theorem c03_from_the_wire_with_controls_fixed m app_id code r ib cts cs env bs rest : (2 <= m)%nat -> id_ok ib = true ->
   wf_res code r -> Forall2 WfCtrl cts cs ->
   env = C Universal 16 [P Universal 2 ib; spec_response app_id code r; C Context 0 cts] -> BerEnc env bs ->
   decode_inner' (repaired_d m) (bs ++ rest) = DFrame (as_i32 (parse_uint ib)) (spec_response app_id code r) cs rest /\
   result_of_tree (spec_response app_id code r) = Ok r.
 Proof.
-  intros Hm Hw Hc -> He. split; [|now apply c03_result_of_spec].
+  intros Hm Hid Hw Hc -> He. split; [|now apply c03_result_of_spec].
   assert (Hop : op_ok (spec_response app_id code r)) by reflexivity.
   apply (c06_exact_consumption_fixed m (as_i32 (parse_uint ib), spec_response app_id code r, cs) bs rest).
-  eexists. split; [exact (WM_ctrls ib _ cts cs Hop Hc)|]. split; [exact He|].
+  eexists. split; [exact (WM_ctrls ib _ cts cs Hop Hid Hc)|]. split; [exact He|].
   pose proof (tdepth_spec_response app_id code r). pose proof (WfCtrls_depth _ _ Hc). cbn [tdepth fold_right]. lia.
 Qed.
 Print Assumptions c03_from_the_wire_with_controls_fixed.
